@@ -210,6 +210,7 @@ def handle (line : String) : String :=
   | "transform" :: rest => Cli.Wire.handleTransform rest
   | "history" :: rest => Cli.Wire.handleHistory rest
   | "list" :: rest => Cli.Wire.handleList rest
+  | "extract" :: rest => Cli.Wire.handleExtract rest
   | ["archive.read.stream", h] =>
     match ofHex h with
     | some b => Canon.readS (readArchiveStream b)
